@@ -207,18 +207,25 @@ fn dispatch_twin(which: Which) {
     let t = be16(b, 0);
     if which != Which::Generic && !is_grease(t) {
         // recognition of a type does not depend on the content length. The stubbed harness decides this for
-        // every type; natively it can be replayed for the types whose real decoder accepts both an empty
-        // and some non-empty content (a fixed valid one is used, the symbolic content may be rejected).
+        // every type; natively it can be replayed with a fixed valid non-empty content per type
+        // (the symbolic content may be rejected by the real decoder); it fires when both lengths are accepted.
         let body: Option<&'static [u8]> = match t {
-            0 => Some(&[0, 0]),
-            5 => Some(&[1, 0]),
-            18 => Some(&[0, 0]),
+            0 | 18 | 48 => Some(&[0, 0]),
+            1 | 15 => Some(&[1]),
+            5 | 11 => Some(&[1, 0]),
+            10 => Some(&[0, 2, 0, 23]),
+            13 => Some(&[0, 2, 4, 3]),
+            16 => Some(&[0, 3, 2, 0x68, 0x32]),
             21 | 35 | 40 | 41 | 44 | 51 => Some(&[7]),
+            28 => Some(&[0x40, 0]),
             42 => Some(&[0, 0, 0, 1]),
+            43 => Some(&[2, 3, 4]),
+            45 => Some(&[1, 1]),
+            0xff01 => Some(&[0]),
             _ => None,
         };
         if let Some(body) = body {
-            let mut full = [0u8; 8];
+            let mut full = [0u8; 12];
             full[0] = b[0];
             full[1] = b[1];
             full[3] = body.len() as u8;
